@@ -13,7 +13,7 @@ def _p(engine, q_runs, q_faults, t_runs, t_faults, per_task=180):
 
 
 PLANS = {
-    "C03": _p("asm", 5000, 0, 400000, 0),
+    "C03": _p("asm", 4000, 1500, 300000, 100000),
     "C04": _p("bc", 3600, 1200, 300000, 100000),
     "C05": _p("dyn", 3000, 900, 300000, 100000),
     "C11": _p("law", 6000, 0, 600000, 0),
